@@ -433,7 +433,7 @@ def run(ctx):
     correspondence_and_oracle(ctx, rng, 1200 if ctx.thorough else 250)
     del CLAMP_REQ[:]
     oracle_distribute(ctx, rng, 200 if ctx.thorough else 50)
-    oracle_chain(ctx, rng, 12 if ctx.thorough else 4)
+    oracle_chain(ctx, rng, 80 if ctx.thorough else 24)
     if CLAMP_REQ and modelio.build_driver(ctx):
         bad = 0
         for rep, (req, real, info) in zip(modelio.ask([r[0] for r in CLAMP_REQ]), CLAMP_REQ):
